@@ -31,9 +31,14 @@ def generate(rng, tier, idx):
             ops.append({"op": "img_add", "variant": pick(rng, variants), "arch": arch, "iid": rng.randrange(len(imgs))})
         elif r < 0.9:
             ops.append({"op": "dump", "path": path})
-            if rng.random() < 0.25:
+            r2 = rng.random()
+            if r2 < 0.25:
                 ops.append({"op": "im_inject_collision", "path": path, "version": pick(rng, ["1.0", "1.1", "1.2", "0.3", "1.3"]),
                             "where": pick(rng, ["same-cell", "other-arch", "other-variant"]), "pick": rng.randint(0, 20)})
+            elif r2 < 0.45:
+                # the node restarts on an OLDER-format copy of its own state; the identity rule applies to the
+                # upgraded live object from then on
+                ops.append({"op": "im_downgrade", "path": path, "version": pick(rng, ["1.0", "1.1"]), "src_variants": [], "tag": "C09"})
             if rng.random() < 0.7:
                 ops.append({"op": "restart", "path": path, "via": pick(rng, ["path", "handle", "loads"]), "offset": rng.randint(0, 900)})
                 # the pool is rebuilt on restart; create fresh objects to keep adding
